@@ -16,10 +16,23 @@ def run(rep):
     rep.assumptions += kp.COMMON_ASSUMPTIONS + [
         "Imsaak = Fajr recomputed at angle Fajr+Imsaak (get_imsaak's control flow is checked under C12); the 0.5 deg 'true instantaneous "
         "altitude' clause depends on the ephemeris and is outside the claim"]
-    res = base.run_obligations(rep, [(kernels.fajr_isha, 60), (kernels.fajr_isha_monotone, 60), (policy.imsaak, None), (jd.jd_formula, (1600, 2399))])
-    if any((x["cands"] or x["inconclusive"]) for x in res if x["name"].startswith("get_imsaak")):
+    # a Fajr/Isha reported WITHOUT the extreme flag under the library's default policy claims to be the conventional one: frame clause
+    DEFAULT = "NearestGoodDayFajrIshaInvalid"
+    res = base.run_obligations(rep, [(kernels.fajr_isha, 60), (kernels.fajr_isha_monotone, 60), (policy.imsaak, None), (jd.jd_formula, (1600, 2399)),
+                                     (policy.policy_clauses, (DEFAULT, ["frame"], "named"))])
+    fr = [x for x in res if x["name"].startswith("adj_for_ext_lat")]
+    if any((x["cands"] or x["inconclusive"]) for x in fr) and any(not c.get("known_role") for x in fr for c in x["cands"]) or any(x["inconclusive"] for x in fr):
         from . import policyprop as pp
-        if not pp.imsaak_grid(rep) and any(x["cands"] for x in res if x["name"].startswith("get_imsaak")):
+        if not pp.frame_grid(rep, [DEFAULT], methods=("Egyptian", "Mwl", "Isna")) and any(not c.get("known_role") for x in fr for c in x["cands"]):
+            rep.inconclusive.append("frame-clause counterexample (default policy) not reproduced through the public API")
+    for o in rep.obligations:      # the recorded C08 finding (interval-flag) is not C03's subject
+        x = next((y for y in fr if y["name"] == o["name"]), None)
+        if x and o["status"] == "violated" and all(c.get("known_role") for c in x["cands"]):
+            o["status"] = "holds"
+            o["note"] = "only counterexample role: C08 known finding interval-flag (flag of an interval-defined Isha; not an angle-based time)"
+    if any((x["cands"] or x["inconclusive"]) for x in res if x.get("fn") == "imsaak"):
+        from . import policyprop as pp
+        if not pp.imsaak_grid(rep) and any(x["cands"] for x in res if x.get("fn") == "imsaak"):
             rep.inconclusive.append("get_imsaak counterexample not reproduced through the public API")
     if any(x["cands"] for x in res if x["name"].startswith("JulianDay")):
         from . import c01
